@@ -67,12 +67,18 @@ def main():
             demo_fails = "FAIL" in out
             unplace()
             # clean tree
-            sh(["git", "stash", "-q"], cwd=wt)
+            # (no git stash: the stash is shared by all worktrees of a repository, so
+            # two seedtest runs at the same time would pop each other's patch)
+            sh(["git", "diff", "--binary", "--output=" + wt + ".applied.diff"], cwd=wt)
+            sh(["git", "checkout", "--", "."], cwd=wt)
             place()
             rc, out2 = sh("go test %s-count=1 -run TestDemo . 2>&1 | tail -5" % demo_flags, cwd=wt)
             demo_passes_clean = "FAIL" not in out2 and "ok" in out2
             unplace()
-            sh(["git", "stash", "pop", "-q"], cwd=wt)
+            rc, out3 = sh(["git", "apply", wt + ".applied.diff"], cwd=wt)
+            os.remove(wt + ".applied.diff")
+            if rc != 0:
+                print("could not re-apply the change:", out3[:300]); result["error"] = "re-apply failed"; return result
         result["demo_fails_with_change"] = demo_fails
         result["demo_passes_without_change"] = demo_passes_clean
         result["confirmed"] = bool(suite_ok and demo_fails and demo_passes_clean)
@@ -85,6 +91,9 @@ def main():
             sigs = [l.strip()[:200] for l in p.stderr.splitlines() if l.startswith("  [")]
             result["checks"][chk] = dict(exit=p.returncode, violations=len(viol), sigs=sigs[:6], wall=round(time.time() - t0, 1))
             print("check %s %s: exit=%d violations=%d %s (%.0fs)" % (chk, tier, p.returncode, len(viol), "; ".join(s[:110] for s in sigs[:3]), time.time() - t0))
+            for l in p.stderr.splitlines():
+                if "dropped" in l or "watchdog" in l:
+                    print("  note:", l[:200])
             if p.returncode == 2:
                 print(p.stderr[-1500:])
         if keep and result["confirmed"]:
